@@ -167,7 +167,7 @@ class Source(object):
 
 EXC_PARENTS = {'RuntimeError': 'Exception', 'TypeError': 'Exception', 'KeyError': 'Exception',
                'StopIteration': 'Exception', 'AttributeError': 'Exception', 'IndexError': 'Exception',
-               'ValueError': 'Exception', 'Exception': None,
+               'ValueError': 'Exception', 'SyntaxError': 'Exception', 'Exception': None,
                # lark's parse errors (external) and the package's ParserError subclasses
                'lark.UnexpectedToken': 'Exception', 'lark.UnexpectedCharacters': 'Exception',
                'pkg.ParserError': 'Exception', 'pkg.UnexpectedToken': 'pkg.ParserError', 'pkg.UnexpectedCharacters': 'pkg.ParserError'}
@@ -586,6 +586,11 @@ class Executor(object):
                 return SV('int', a.t + b.t)
             if isinstance(e.op, ast.Sub):
                 return SV('int', a.t - b.t)
+        if a.ty not in ('set', 'list', 'dlist', 'keys', 'dict', 'coll', 'pairlist'):
+            for x_ in self.E.ext:
+                r = x_.binop(self.E, self, type(e.op).__name__, a, b, path, e)
+                if r is not None:
+                    return r
         if isinstance(e.op, (ast.BitAnd, ast.Sub, ast.BitOr)):
             ca = self.as_coll(a, path, 'combine')
             cb = self.as_coll(b, path, 'combine')
@@ -598,6 +603,10 @@ class Executor(object):
                 else:
                     body = z3.And(ca.mem[x], z3.Not(cb.mem[x]))
                 return self.alloc_set(path, z3.Lambda([x], body))
+        for x_ in self.E.ext:
+            r = x_.binop(self.E, self, type(e.op).__name__, a, b, path, e)
+            if r is not None:
+                return r
         raise Unsupported('binary operator %s on %s, %s at line %d' % (type(e.op).__name__, a.ty, b.ty, e.lineno))
 
     def name_array(self, path, contents):
